@@ -22,6 +22,10 @@ pub fn gettime(clock_id: libc::clockid_t) -> Option<Result<libc::timespec, i32>>
     }
     let mut s = sh.lock();
     let frozen = s.frozen_by == Some(me);
+    if !frozen && s.cfg.clock_read_cost_ns > 0 {
+        s.now += s.cfg.clock_read_cost_ns;
+        s.fire_timers();
+    }
     let p = if frozen { 0 } else { s.cfg.clock_fail_ppm };
     if s.decide_p(K_CLOCKFAIL, p) {
         s.count("fault.clock_gettime_fail");
